@@ -232,3 +232,144 @@ def must_at(cfg: CFG, site: int, formula: str, start: int = None, start_label: s
     st = cfg.must_facts(start, start_label=start_label)
     f = st.get(site)
     return f is not None and f.known(formula) is True
+
+
+def iter_covers(cfg: CFG, loop_stmt, formula: str, site_pred: Callable[[ast.AST], bool], max_paths: int = 20000):
+    """R-COVER: within ONE iteration of `loop_stmt`, every path on which `formula` is not
+    known False passes a statement satisfying `site_pred`.
+    Returns (n_paths, n_sites_seen, witnesses) - witnesses are the offending paths."""
+    from .cfg import iteration_paths
+    ps = iteration_paths(cfg, loop_stmt, max_paths=max_paths)
+    wit = []
+    seen_sites = set()
+    for p in ps:
+        hit = [n for n in p.nodes() if n.kind == 'stmt' and site_pred(n.ast)]
+        for n in hit:
+            seen_sites.add(n.id)
+        if hit:
+            continue
+        if p.end_kind() in ('raise',):
+            continue
+        if p.facts.known(formula) is False:
+            continue
+        wit.append(p)
+    return len(ps), len(seen_sites), wit
+
+
+def iter_sound(cfg: CFG, loop_stmt, formulas: List[str], site_pred: Callable[[ast.AST], bool], max_paths: int = 20000):
+    """Dual of iter_covers: every iteration path that passes a `site_pred` statement knows
+    one of `formulas` to be True.  Returns (n_paths_through_site, witnesses)."""
+    from .cfg import iteration_paths
+    ps = iteration_paths(cfg, loop_stmt, max_paths=max_paths)
+    wit, n = [], 0
+    for p in ps:
+        if not any(x.kind == 'stmt' and site_pred(x.ast) for x in p.nodes()):
+            continue
+        n += 1
+        if not any(p.facts.known(f) is True for f in formulas):
+            wit.append(p)
+    return n, wit
+
+
+ONESHOT_CALLS = {'map', 'filter', 'zip', 'iter', 'reversed', 'enumerate', 'finditer', 'chain', 'islice', 'combinations',
+                 'permutations', 'product', 'groupby', 'starmap', 'takewhile', 'dropwhile'}
+
+
+def _maybe_oneshot(e) -> bool:
+    if isinstance(e, ast.GeneratorExp):
+        return True
+    if isinstance(e, ast.Call) and call_name(e) in ONESHOT_CALLS:
+        return True
+    if isinstance(e, ast.IfExp):
+        return _maybe_oneshot(e.body) or _maybe_oneshot(e.orelse)
+    return False
+
+
+def oneshot_misuse(fn) -> List[Tuple[ast.AST, str, str]]:
+    """R-ONESHOT: a local that may hold a one-shot iterator (generator expression, map/filter/zip/
+    finditer ...) is (a) the right operand of `in` / `not in` (membership on an iterator CONSUMES it:
+    later tests see an exhausted iterator) or (b) iterated inside a loop that does not re-create it.
+    Returns (node, name, why)."""
+    binds: Dict[str, List[ast.AST]] = {}
+    for n in walk_no_nested(fn):
+        if isinstance(n, ast.Assign) and len(n.targets) == 1 and isinstance(n.targets[0], ast.Name):
+            binds.setdefault(n.targets[0].id, []).append(n)
+        elif isinstance(n, ast.AnnAssign) and isinstance(n.target, ast.Name) and n.value is not None:
+            binds.setdefault(n.target.id, []).append(n)
+    shots = {k: [b for b in v if _maybe_oneshot(b.value)] for k, v in binds.items()}
+    shots = {k: v for k, v in shots.items() if v}
+    out = []
+    if not shots:
+        return out
+    loops = [l for l in walk_no_nested(fn) if isinstance(l, (ast.For, ast.While))]
+
+    def inside(node, loop):
+        return any(x is node for st in loop.body for x in ast.walk(st))
+    for n in walk_no_nested(fn):
+        if isinstance(n, ast.Compare):
+            for op, c in zip(n.ops, n.comparators):
+                if isinstance(op, (ast.In, ast.NotIn)) and isinstance(c, ast.Name) and c.id in shots:
+                    out.append((n, c.id, f"membership test `{unparse(n)}` on a one-shot iterator (bound at line {shots[c.id][0].lineno}) consumes it"))
+        its = []
+        if isinstance(n, ast.For):
+            its = [n.iter]
+        elif isinstance(n, (ast.ListComp, ast.SetComp, ast.DictComp, ast.GeneratorExp)):
+            its = [g.iter for g in n.generators]
+        for it in its:
+            if isinstance(it, ast.Name) and it.id in shots:
+                for lp in loops:
+                    if lp is n:
+                        continue
+                    if inside(n, lp) and not any(inside(b, lp) for b in shots[it.id]):
+                        out.append((n, it.id, f"`{it.id}` (one-shot, bound at line {shots[it.id][0].lineno}) is iterated inside a loop that does not re-create it"))
+    return out
+
+
+PURE_CALLS = {'sorted', 'reversed', 'list', 'tuple', 'set', 'frozenset', 'dict', 'len', 'str', 'int', 'float', 'min', 'max', 'sum', 'abs',
+              'any', 'all', 'zip', 'map', 'filter', 'enumerate', 'range', 'copy', 'deepcopy'}
+PURE_METHODS = {'strip', 'lstrip', 'rstrip', 'upper', 'lower', 'startswith', 'endswith', 'union', 'intersection', 'difference',
+                'keys', 'values', 'items'}
+
+
+def discarded_pure(fn) -> List[Tuple[ast.AST, str]]:
+    """R-DISCARD: an expression statement whose value is the result of a side-effect-free builtin / method
+    (sorted(x), x.strip(), ...) - the author meant to use or re-bind the result."""
+    out = []
+    for n in walk_no_nested(fn):
+        if isinstance(n, ast.Expr) and isinstance(n.value, ast.Call):
+            c = n.value
+            if isinstance(c.func, ast.Name) and c.func.id in PURE_CALLS:
+                out.append((n, f"result of `{unparse(c)[:60]}` is discarded"))
+            elif isinstance(c.func, ast.Attribute) and c.func.attr in PURE_METHODS:
+                out.append((n, f"result of `{unparse(c)[:60]}` is discarded"))
+    return out
+
+
+def memo_key_gaps(fn) -> List[Tuple[ast.AST, str, List[str]]]:
+    """R-MEMO: for the memo idiom `if K in C: return C[K]` (C not a fresh local container), every `self.<attr>`
+    the function reads while computing the value must be part of the key K.  Returns (node, key text, missing attrs)."""
+    out = []
+    for n in walk_no_nested(fn):
+        if not (isinstance(n, ast.If) and isinstance(n.test, ast.Compare) and len(n.test.ops) == 1 and isinstance(n.test.ops[0], ast.In)):
+            continue
+        k, c = n.test.left, n.test.comparators[0]
+        if not (n.body and isinstance(n.body[0], ast.Return) and isinstance(n.body[0].value, ast.Subscript)
+                and unparse(n.body[0].value.value) == unparse(c) and unparse(n.body[0].value.slice) == unparse(k)):
+            continue
+        # the container must outlive the call: not bound to a literal / constructor in this function
+        if isinstance(c, ast.Name):
+            d = resolve_local(fn, c.id)
+            if d is not None and isinstance(d, (ast.Dict, ast.List, ast.Set)) or (isinstance(d, ast.Call) and call_name(d) in ('dict', 'set', 'list')):
+                continue
+        kexpr = k
+        if isinstance(k, ast.Name):
+            r = resolve_local(fn, k.id)
+            kexpr = r if r is not None else k
+        key_attrs = {unparse(a) for a in ast.walk(kexpr) if isinstance(a, ast.Attribute) and isinstance(a.value, ast.Name) and a.value.id == 'self'}
+        read_attrs = {unparse(a) for a in walk_no_nested(fn) if isinstance(a, ast.Attribute) and isinstance(a.value, ast.Name) and a.value.id == 'self'
+                      and isinstance(a.ctx, ast.Load) and not isinstance(getattr(a, '_parent_call', None), ast.Call)}
+        # method calls on self (self.f(...)) are not data attributes
+        called = {unparse(cl.func) for cl in walk_no_nested(fn) if isinstance(cl, ast.Call) and isinstance(cl.func, ast.Attribute)}
+        missing = sorted(a for a in read_attrs - key_attrs - called if not unparse(c).startswith(a))
+        out.append((n, unparse(kexpr), missing))
+    return out
